@@ -889,6 +889,11 @@ class Evaluator(object):
             mt = self.matches_term(node, env, guards, fn, chain)
             if mt is not None:
                 return mt
+            if node.get('sp') in getattr(self, 'tail_sps', ()):
+                lifted = lift_propagating_arm(node)
+                if lifted is not node:
+                    self.tail_sps = set(self.tail_sps) | {lifted['expr']['sp']}
+                    return self.eval(lifted, env, guards, fn, chain)
             node = H.nest_tuple_match(H.nest_result_match(node))
             if node.get('tail_of') in getattr(self, 'tail_sps', ()):
                 self.tail_sps = set(self.tail_sps) | {node.get('sp')}
@@ -1455,6 +1460,50 @@ def is_propagate_match(node):
         if ob2.get('ty') == '!' or (ob2.get('k') == 'MacroCall' and ob2.get('name') in ('unreachable', 'panic', 'unimplemented', 'todo')):
             return False
     return _hands_error_on(ea['body'], ea['pat'])
+
+
+_LIFT = {}
+
+
+def lift_propagating_arm(node):
+    """In tail position, `match opt { Some(P1) => a, Some(P2) => b, None => Err(e) }` (likewise a Result whose Err arm only hands
+    the error on) is `let v = opt.ok_or(e)?; match v { P1 => a, P2 => b }`: the failing arm is the `?`, the rest is a decision on
+    the payload. Returns the rewritten block, or the node itself."""
+    import canon
+    if node.get('k') != 'Match' or node.get('src') != 'Normal' or len(node.get('arms', [])) < 2:
+        return node
+    key = id(node)
+    if key in _LIFT and _LIFT[key][0] is node:
+        return _LIFT[key][1]
+    out = node
+    ty = (node['scrut'].get('ty') or '').lstrip('&')
+    good, bad = ('Some', 'None') if ty.startswith('std::option::Option<') else (('Ok', 'Err') if ty.startswith('std::result::Result<') else (None, None))
+    if good is not None and all(a.get('guard') is None for a in node['arms']):
+        ws = [canon.whole(a['pat'], ty) for a in node['arms']]
+        bads = [a for a, w in zip(node['arms'], ws) if w == {bad}]
+        goods = [a for a, w in zip(node['arms'], ws) if w != {bad}]
+        ok = len(bads) == 1 and goods and all(a['pat'].get('k') == 'PTupleStruct' and len(a['pat'].get('pats', [])) == 1 and H.res_path(a['pat']['res']).split('::')[-1] == good for a in goods)
+        simple = len(goods) == 1 and goods[0]['pat']['pats'][0].get('k') in ('Bind', 'Wild') if ok else False
+        if ok and not simple and _hands_error_on(bads[0]['body'], bads[0]['pat'] if bad == 'Err' else {'k': 'Wild'}):
+            inner_ty = H._generic_args(ty)[0] if H._generic_args(ty) else None
+            sp = node.get('sp') or ''
+            vid = -(3000000 + (abs(hash(sp)) % 1000000))
+            nid = vid - 1
+            bb = bads[0]['body']
+            bbp = bb
+            while bbp.get('k') == 'Block' and not bbp.get('stmts') and bbp.get('expr') is not None:
+                bbp = bbp['expr']
+            ret_body = bb if H.peel(bbp).get('k') == 'Ret' or bbp.get('k') == 'Ret' else {'k': 'Ret', 'e': bb, 'ty': '!', 'sp': sp + '#ret'}
+            good_pat = dict(goods[0]['pat'], pats=[{'k': 'Bind', 'name': '$v', 'id': vid, 'mode': 'BindingMode(No, Not)', 'ty': inner_ty}])
+            first = {'k': 'Match', 'src': 'Normal', 'scrut': node['scrut'], 'ty': inner_ty, 'sp': sp + '#lift',
+                     'arms': [dict(goods[0], pat=good_pat, body={'k': 'Local', 'name': '$v', 'id': vid, 'ty': inner_ty, 'sp': sp + '#v'}),
+                              dict(bads[0], body=ret_body)]}
+            let = {'k': 'Let', 'pat': {'k': 'Bind', 'name': '$n', 'id': nid, 'mode': 'BindingMode(No, Not)', 'ty': inner_ty}, 'init': first, 'els': None, 'sp': sp + '#let'}
+            second = {'k': 'Match', 'src': 'Normal', 'scrut': {'k': 'Local', 'name': '$n', 'id': nid, 'ty': inner_ty, 'sp': sp + '#n'}, 'ty': node.get('ty'),
+                      'sp': sp + '#rest', 'tail_of': sp, 'arms': [dict(a, pat=a['pat']['pats'][0]) for a in goods]}
+            out = {'k': 'Block', 'stmts': [let], 'expr': second, 'ty': node.get('ty'), 'sp': sp + '#blk'}
+    _LIFT[key] = (node, out)
+    return out
 
 
 def is_default_match(node):
